@@ -218,3 +218,144 @@ Definition norm_effs (effs : list effect) : list effect :=
 Definition is_eff_kw (h : string) : bool :=
   (h =? "and") || (h =? "when") || (h =? "not") || (h =? "assign") || (h =? "increase") || (h =? "decrease")
   || (h =? "forall").
+
+(* ------------------------------------------------------------------ the TEXT _write_untimed_effects emits *)
+(* "(forall (" + "?v - t ..." + ")" is written WITHOUT a leading blank; every other piece starts with one:
+   "(and" + [ " f" | " (when c f)" | "(forall (vs) f)" | "(forall (vs) (when c f))" ]* + ")" *)
+Definition convert_text (simp : expr -> expr) (nm : naming) (x : expr) : option string := print_text nm (simp x).
+
+Definition item_text (nm : naming) (vs : list (N * N)) (body : string) : string :=
+  match vs with [] => String " " body | _ => tlist ["forall"; tlist (var_toks nm vs); body] end.
+
+Definition print_effect_text (simp : expr -> expr) (nm : naming) (rewrite : bool) (e : effect) : option (list string) :=
+  let sc := simp (e_cond e) in
+  let fl := convert_text simp nm (target e) in
+  let nonconst := e_isbool e && negb (is_true (e_val e)) && negb (is_false (e_val e)) in
+  if nonconst then
+    if negb rewrite then None
+    else match e_kind e with
+    | KAssign =>
+        let part (c : expr) (mk : string -> string) : option (list string) :=
+          if is_false c then Some []
+          else match fl with
+               | None => None
+               | Some f =>
+                   if is_true c then Some [item_text nm (e_vars e) (mk f)]
+                   else match convert_text simp nm c with
+                        | Some cs => Some [item_text nm (e_vars e) (tlist ["when"; cs; mk f])]
+                        | None => None
+                        end
+               end in
+        match part (simp (EAnd [sc; e_val e])) (fun f => f),
+              part (simp (EAnd [sc; mkNot (e_val e)])) (fun f => tlist ["not"; f]) with
+        | Some a, Some b => Some (a ++ b)%list
+        | _, _ => None
+        end
+    | _ => None
+    end
+  else if is_false sc then Some []
+  else
+    let sv := simp (e_val e) in
+    match (if is_true sc then Some None else option_map Some (convert_text simp nm (e_cond e))), fl with
+    | Some ocs, Some f =>
+        let leaf :=
+          if is_true sv then Some f
+          else if is_false sv then Some (tlist ["not"; f])
+          else option_map (fun v => tlist [kind_kw (e_kind e); f; v]) (convert_text simp nm sv) in
+        match leaf with
+        | Some lf =>
+            Some [item_text nm (e_vars e) (match ocs with Some cs => tlist ["when"; cs; lf] | None => lf end)]
+        | None => None
+        end
+    | _, _ => None
+    end.
+
+Fixpoint concat_s (l : list string) : string := match l with [] => "" | x :: r => x ++ concat_s r end.
+
+Definition print_effects_text (simp : expr -> expr) (nm : naming) (rewrite : bool) (effs : list effect) : option string :=
+  match sequence (map (print_effect_text simp nm rewrite) effs) with
+  | Some ls => Some ("(and" ++ concat_s (List.concat ls) ++ ")")
+  | None => None
+  end.
+
+(* lower-casing + tokenisation + _add_effect *)
+Definition parse_effects_text (simp : expr -> expr) (E : env) (isb : N -> bool) (t : string) : option (list effect) :=
+  match lex (prep t) with Some s => parse_effects simp E isb s | None => None end.
+
+(* ------------------------------------------------------------------ one instantaneous action (structural level) *)
+(* PDDLWriter._write_domain, branch InstantaneousAction: "(:action name :parameters (" + " ?p - t"* + ")" +
+   _write_untimed_preconditions + _write_untimed_effects + ")".  UPPDDLReader._parse_problem: the grammar's typed list
+   [parameters] (the same grammar as the quantifier variable lists: [parse_vars]), one precondition = _parse_exp of the
+   whole "(and ...)" group added with add_precondition (TRUE is not added), effects = _add_effect. *)
+Record paction := {
+  pa_params : list (N * N);        (* (parameter id, user type id) in order *)
+  pa_pre : list expr;              (* InstantaneousAction.preconditions *)
+  pa_effs : list effect
+}.
+
+Definition print_pars (nm : naming) (ps : list (N * N)) : list sexp :=
+  flat_map (fun pt => [Atom (qpar nm (fst pt)); Atom "-"; Atom (nm_ty nm (snd pt))]) ps.
+
+(* the conjuncts _write_untimed_preconditions prints: every precondition simplified, TRUE skipped, a top-level And
+   replaced by its arguments *)
+Definition pre_conjuncts (simp : expr -> expr) (pre : list expr) : list expr :=
+  flat_map (fun p => let s := simp p in if is_true s then [] else match s with EAnd l => l | _ => [s] end) pre.
+
+Record action_sx := { ax_params : list sexp; ax_pre : option sexp; ax_eff : option sexp }.
+
+(* None = the writer raises; the action is skipped altogether when a precondition simplifies to FALSE ([Some None]) *)
+Definition print_action (simp : expr -> expr) (nm : naming) (rewrite empty_pre : bool) (a : paction)
+  : option (option action_sx) :=
+  if existsb (fun p => is_false (simp p)) (pa_pre a) then Some None
+  else
+    let pre :=
+      match pa_pre a with
+      | [] => if empty_pre then Some (Some (SList [])) else Some None
+      | _ => match sequence (map (fun c => print nm (simp c)) (pre_conjuncts simp (pa_pre a))) with
+             | Some ss => Some (Some (SList (Atom "and" :: ss)))
+             | None => None end
+      end in
+    let eff :=
+      match pa_effs a with
+      | [] => Some None
+      | _ => option_map Some (print_effects simp nm rewrite (pa_effs a))
+      end in
+    match pre, eff with
+    | Some p, Some e => Some (Some {| ax_params := print_pars nm (pa_params a); ax_pre := p; ax_eff := e |})
+    | _, _ => None
+    end.
+
+Definition parse_action (simp : expr -> expr) (E : env) (isb : N -> bool) (x : action_sx) : option paction :=
+  if forallb is_atom (ax_params x) then
+    match parse_vars E [] (ax_params x) with
+    | Some nps =>
+        match sequence (map (fun p => option_map (fun i => (i, snd p)) (e_par E (fst p))) nps) with
+        | Some ps =>
+            let pre := match ax_pre x with
+                       | None => Some []
+                       | Some s => match parse E [] s with
+                                   | Some c => Some (if is_true c then [] else [c])
+                                   | None => None end
+                       end in
+            let eff := match ax_eff x with None => Some [] | Some s => parse_effects simp E isb s end in
+            match pre, eff with
+            | Some p, Some e => Some {| pa_params := ps; pa_pre := p; pa_effs := e |}
+            | _, _ => None
+            end
+        | None => None
+        end
+    | None => None
+    end
+  else None.
+
+(* the re-read action: one precondition, the conjunction of the normalised written conjuncts *)
+Definition norm_action (simp : expr -> expr) (a : paction) : paction :=
+  {| pa_params := pa_params a;
+     pa_pre := match map norm (pre_conjuncts simp (pa_pre a)) with [] => [] | l => [mkAnd l] end;
+     pa_effs := norm_effs (pa_effs a) |}.
+
+Definition pddl_action_ok (simp : expr -> expr) (isb : N -> bool) (a : paction) : bool :=
+  negb (existsb (fun p => is_false (simp p)) (pa_pre a))
+  && forallb (fun c => sfix simp c && pddl_ok [] c) (pre_conjuncts simp (pa_pre a))
+  && forallb (pddl_eff_ok simp isb) (pa_effs a)
+  && nodupN (map fst (pa_params a)).
